@@ -19,23 +19,23 @@ type Violation struct {
 
 // Fragment is what one test process contributes; the driver merges fragments.
 type Fragment struct {
-	Property    string           `json:"property"`
-	Tier        string           `json:"tier"`
-	Seed        int64            `json:"seed"`
-	Shard       int              `json:"shard"`
-	Evaluations int64            `json:"evaluations"`
-	EnumNT      int64            `json:"enum_nontrivial"` // distinct by construction
-	Classes     map[string]int64 `json:"classes"`
-	Samples     []any            `json:"samples"`
-	Violations  []Violation      `json:"violations"`
-	KnownHits   map[string]int64 `json:"known_hits"`
+	Property    string            `json:"property"`
+	Tier        string            `json:"tier"`
+	Seed        int64             `json:"seed"`
+	Shard       int               `json:"shard"`
+	Evaluations int64             `json:"evaluations"`
+	EnumNT      int64             `json:"enum_nontrivial"` // distinct by construction
+	Classes     map[string]int64  `json:"classes"`
+	Samples     []any             `json:"samples"`
+	Violations  []Violation       `json:"violations"`
+	KnownHits   map[string]int64  `json:"known_hits"`
 	KnownEx     map[string]string `json:"known_examples"`
-	Extra       map[string]any   `json:"extra"`
-	Stages      map[string]Stage `json:"stages"`
-	Rule        string           `json:"rule"`
-	Exhaustive  []string         `json:"exhaustive"` // names of finite domains enumerated completely (all shards together)
-	Assumptions []string         `json:"assumptions"`
-	Done        bool             `json:"done"`
+	Extra       map[string]any    `json:"extra"`
+	Stages      map[string]Stage  `json:"stages"`
+	Rule        string            `json:"rule"`
+	Exhaustive  []string          `json:"exhaustive"` // names of finite domains enumerated completely (all shards together)
+	Assumptions []string          `json:"assumptions"`
+	Done        bool              `json:"done"`
 }
 
 type Stage struct {
